@@ -11,7 +11,7 @@ SPEC = {
             "reST LENGTH_UNDERLINE & DEF_LINK_TARGETS & NO_LINK_TARGET_REDEF & LIST_NUMBERING_CONSECUTIVE; simple TAR "
             "TAR_CONSTRAINTS) x PRNG seed x cost settings (the test suite's, STD_COST_SETTINGS, perturbed weight vectors, free weight "
             "vectors from {0,1,2,5,10,15,20}^5 with k in {3,4} and 55 solutions) x "
-            "instantiation limits; every returned solution is judged by R1 validity and the domain validator (csv module, expat, "
+            "instantiation limits (the test suite's, 1-3 SMT instantiations, or plain ISLaSolver(grammar, constraint) with every default); every returned solution is judged by R1 validity and the domain validator (csv module, expat, "
             "docutils + text rules, TAR field slicing with recomputed checksum). distinct = distinct (formalization, solution "
             "string)",
     "minimum": {"quick": {"csv_judged": 60, "xml_judged": 60, "rest_judged": 40, "tar_judged": 5, "solvers": 30},
@@ -75,8 +75,16 @@ def run_one(ctx, name, spec, rng, nsol, budget_s):
         nsol = max(nsol, 55)
         ctx.count("solvers_free_cost_vector")
     kw = dict(kw)
-    if rng.random() < 0.3:
+    x = rng.random()
+    if x < 0.3:
         kw["max_number_smt_instantiations"] = rng.choice([1, 2, 3])
+    elif x < 0.55:
+        # the solver's own defaults for the instantiation limits (several SMT models per state: lengths and numbers beyond
+        # Z3's first, smallest model)
+        kw = {k: v for k, v in kw.items() if k == "semantic_predicates"}    # ISLaSolver(grammar, constraint), nothing tuned
+        if rng.random() < 0.6:
+            variant = "std"
+        ctx.count("solvers_default_settings")
     random.seed(seed)
     ctx.ev()
     wit = {"formalization": name, "seed": seed, "cost_variant": variant, "settings": {k: v for k, v in kw.items() if isinstance(v, (int, bool))}}
